@@ -93,7 +93,8 @@ def seek_then_modify(ctx):
     flavs = [0, 4, 1] if ctx.tier == "quick" else gen.FLAVOURS
     for flav in flavs:
         bs = 512 if flav & 1 else 488
-        sizes = [bs + 1, 73 * bs + 1, 74 * bs] if ctx.tier == "quick" else \
+        # (144 blocks on FFS: a write after a FAILED seek to the end ran into a SIGSEGV before adfFileWrite refused such a handle)
+        sizes = ([bs + 1, 73 * bs + 1, 74 * bs] + ([144 * bs] if flav == 1 else [])) if ctx.tier == "quick" else \
                 [k * bs + d for k in (1, 2, 71, 72, 73, 74, 144, 145) for d in (0, 1, 2, bs - 1)]
         for size in sizes:
             for (target, what) in ((size + 7, "append at the end"), (size - 1, "overwrite the last byte"), ((size // bs) * bs, "overwrite at the last block boundary")):
